@@ -317,6 +317,7 @@ func historyCase(c *run.Ctx) run.Result {
 		}
 		refField := unionField(shapes)
 		mismatch, firstMis := 0, ""
+		ties := 0
 		for z := g.lo[2]; z < g.lo[2]+g.n[2]; z++ {
 			for y := g.lo[1]; y < g.lo[1]+g.n[1]; y++ {
 				for x := g.lo[0]; x < g.lo[0]+g.n[0]; x++ {
@@ -327,8 +328,12 @@ func historyCase(c *run.Ctx) run.Result {
 					p := vec{float64(x) / hs.CPU, float64(y) / hs.CPU, float64(z) / hs.CPU}
 					fv := refField(p)
 					if math.Abs(fv-step.Cut) < 1e-9 {
-						res.Inconclusive = fmt.Sprintf("degenerate (lattice sample within 1e-9 of the threshold): point %v", q)
-						return res
+						if v, _ := rec.value(q); judgeExactTies && fv == step.Cut && v == step.Cut {
+							ties++ // exact tie on both sides: outside, as g.in already says
+						} else {
+							res.Inconclusive = fmt.Sprintf("degenerate (lattice sample within 1e-9 of the threshold, not an exact tie on both sides): point %v", q)
+							return res
+						}
 					}
 					if (fv < step.Cut) != g.in[g.idx(q)] {
 						mismatch++
@@ -339,6 +344,9 @@ func historyCase(c *run.Ctx) run.Result {
 					}
 				}
 			}
+		}
+		if ties > 0 {
+			res.Count("exact_tie_lattice_points_judged", int64(ties))
 		}
 		if mismatch > 0 {
 			res.Violate("field-sample-mismatch", "marching.CombineFields / constructors sampled on one canvas", "history", fmt.Sprintf("%d sampled lattice points are on the other side of the threshold than for the union of the shapes added so far; %s || case: %s", mismatch, firstMis, desc), hs)
